@@ -95,15 +95,47 @@ func Synth(seed int64, n int) *Corpus {
 	caTpl := &stdx509.Certificate{SerialNumber: big.NewInt(1), Subject: pkix.Name{Country: []string{"US"}, Organization: []string{"Synth CA"}, CommonName: "Synth Issuing CA"},
 		NotBefore: time.Date(2010, 1, 1, 0, 0, 0, 0, time.UTC), NotAfter: time.Date(2040, 1, 1, 0, 0, 0, 0, time.UTC), IsCA: true, BasicConstraintsValid: true,
 		KeyUsage: stdx509.KeyUsageCertSign | stdx509.KeyUsageCRLSign, SubjectKeyId: caSki[:]}
+	// stratified head of the matrix: every scope document (TLS, S/MIME, code signing) and near misses of the S/MIME policy arc
+	// (an unreserved validation type / generation, the bare arc) x subscriber and subordinate CA x purposes alone, with
+	// e-mail protection, with server authentication, none - the combinations a rule about scope or purposes distinguishes
+	type stratum struct {
+		role string
+		pol  asn1.ObjectIdentifier
+		ekus []stdx509.ExtKeyUsage
+	}
+	var strata []stratum
+	for _, sc := range []struct {
+		pol asn1.ObjectIdentifier
+		own stdx509.ExtKeyUsage
+	}{{oid(2, 23, 140, 1, 2, 2), stdx509.ExtKeyUsageServerAuth}, {oid(2, 23, 140, 1, 5, 1, 1), stdx509.ExtKeyUsageEmailProtection}, {oid(2, 23, 140, 1, 4, 1), stdx509.ExtKeyUsageCodeSigning},
+		{oid(2, 23, 140, 1, 5, 7, 1), stdx509.ExtKeyUsageClientAuth}, {oid(2, 23, 140, 1, 5, 1, 4), stdx509.ExtKeyUsageClientAuth}, {oid(2, 23, 140, 1, 5, 1), stdx509.ExtKeyUsageClientAuth}} {
+		for _, role := range []string{"leaf", "subca"} {
+			for _, ekus := range [][]stdx509.ExtKeyUsage{{sc.own}, {sc.own, stdx509.ExtKeyUsageEmailProtection}, {sc.own, stdx509.ExtKeyUsageServerAuth}, {}} {
+				if len(ekus) == 2 && ekus[0] == ekus[1] {
+					ekus = ekus[:1]
+				}
+				if sc.own == stdx509.ExtKeyUsageClientAuth && len(ekus) == 2 {
+					continue // the near misses carry no indication of their own: client authentication or nothing
+				}
+				strata = append(strata, stratum{role, sc.pol, ekus})
+			}
+		}
+	}
 	for i := 0; i < n; i++ {
 		k := pick(r, ks[1:])
 		spki, _ := stdx509.MarshalPKIXPublicKey(k.priv.Public())
 		ski := sha1.Sum(spki)
 		role := pick(r, []string{"leaf", "leaf", "leaf", "leaf", "subca", "root"})
+		if i < len(strata) {
+			role = strata[i].role
+		}
 		if role == "root" && k.name != "rsa" && k.name != "ed" {
 			role = "subca" // a self-signed certificate is signed with its own key: only deterministic signature schemes
 		}
 		nb := pick(r, startPool)
+		if i < len(strata) {
+			nb = time.Date(2024, 3, 1, 0, 0, 0, 0, time.UTC) // inside the window of every rule in force
+		}
 		tpl := &stdx509.Certificate{SerialNumber: new(big.Int).SetInt64(int64(1000003 + i*7919)), NotBefore: nb, NotAfter: nb.AddDate(0, 0, pick(r, durPool)).Add(time.Duration(r.Intn(3)-1) * time.Second),
 			BasicConstraintsValid: r.Intn(8) != 0, SubjectKeyId: ski[:]}
 		if r.Intn(12) == 0 {
@@ -207,6 +239,13 @@ func Synth(seed int64, n int) *Corpus {
 		}
 		for j := 0; j < r.Intn(4); j++ {
 			tpl.PolicyIdentifiers = append(tpl.PolicyIdentifiers, pick(r, polPool))
+		}
+		if i < len(strata) {
+			tpl.ExtKeyUsage, tpl.UnknownExtKeyUsage = strata[i].ekus, nil
+			tpl.PolicyIdentifiers = []asn1.ObjectIdentifier{strata[i].pol}
+			if strata[i].pol.Equal(oid(2, 23, 140, 1, 5, 7, 1)) || strata[i].pol.Equal(oid(2, 23, 140, 1, 5, 1, 4)) || strata[i].pol.Equal(oid(2, 23, 140, 1, 5, 1)) {
+				tpl.EmailAddresses = nil
+			}
 		}
 		if r.Intn(3) != 0 {
 			for j := 0; j < 1+r.Intn(2); j++ {
